@@ -5,6 +5,7 @@ arms), the classification of every ``raise`` on the compile path, guarded conver
 token text, uniqueness obligations the emitted Python imposes on the parser, recursion
 guards, and (engine E1) that every skeleton the code generator can emit parses as Python.
 Also: no lexer regex is exponentially ambiguous (automaton criterion, all syntax configurations); text interpolated inside emitted string literals is identifier-valued; the dependency finder reaches every filter / test of a compilation unit; fold guards as a deny list, ints folded only when they convert to text; names Python refuses as keywords take the **{} form.  
+Also: delimiter / prefix strings reach lexer patterns only through re.escape (a raw metacharacter would make re.compile raise re.error while loading).  
 Not decided: that CPython accepts every *instantiated* skeleton, regex matching time.
 """
 
